@@ -5,7 +5,7 @@ From Stab.model Require Import Base StatusM Readiness StageStat Engine.
 
 Definition ex_stage (reqs : list nat) (ntasks : nat) : stage :=
   {| s_reqs := reqs; s_join := J_AND; s_threshold := 0; s_cof := false; s_fp := true; s_enabled := None;
-     s_mutex := None; s_choice := None; s_max_jumps := None; s_status := NOT_STARTED; s_started := false;
+     s_mutex := None; s_choice := None; s_max_jumps := None; s_split_or := false; s_conds := []; s_status := NOT_STARTED; s_started := false;
      s_ended := false; s_version := 0; s_fired := false; s_branches := []; s_bypass := false; s_jump_count := 0;
      s_buffered := []; s_signal := None; s_has_exc := false; s_plan_pending := false; s_hydrated := [];
      s_ctx := []; s_outs := []; s_tasks := repeat (mk_task false) ntasks |}.
